@@ -27,4 +27,7 @@ def findData (name : Bytes) : Bytes × Nat :=
   let copyLen := min name.length 259
   (name.take copyLen ++ List.replicate (260 - copyLen) 0, min (plainStart name) copyLen)
 
+/-- SFileGetFileInfo for a supported class whose value takes `need` bytes: written only if the buffer holds them -/
+def info (need value cap : Nat) : Option Bytes := if cap ≥ need then some (natLE need value) else none
+
 end Wv.Buf
